@@ -135,6 +135,38 @@ def nests(depth_list):
     return out
 
 
+def construct_nests(depth_list):
+    """every self-embedding construct of the grammar nested d times (not only brackets): content in a content's
+    meta-data, content with meta-data and body, headers, URI parameters and variables, rec, property chains,
+    applications, transfers in transfer ranges, operator chains, unary chains"""
+    L = ["KeywordLet", "IdentifierValue", "OperatorEqual"]
+    shapes = [
+        ("content-in-status", ["ControlChevronLeft", "ContentStatus", "OperatorEqual"], ["LiteralNumber"], ["ControlChevronRight"]),
+        ("content-in-headers", ["ControlChevronLeft", "ContentHeaders", "OperatorEqual", "ControlBraceLeft", "Property"], ["PrimitiveNum"], ["ControlBraceRight", "ControlChevronRight"]),
+        ("content-meta-and-body", ["ControlChevronLeft", "ContentStatus", "OperatorEqual", "LiteralNumber", "ControlComma"], ["PrimitiveNum"], ["ControlChevronRight"]),
+        ("content-media-only", ["ControlChevronLeft", "ContentMedia", "OperatorEqual"], ["LiteralString"], ["ControlChevronRight"]),
+        ("uri-params", ["PathElementSegment", "OperatorQuestionMark", "ControlBraceLeft", "Property"], ["PrimitiveNum"], ["ControlBraceRight"]),
+        ("uri-variable", ["PathElementRoot", "ControlBraceLeft", "Property"], ["PrimitiveNum"], ["ControlBraceRight"]),
+        ("rec", ["KeywordRec", "IdentifierValue"], ["PrimitiveNum"], []),
+        ("property-chain", ["Property"], ["PrimitiveNum"], []),
+        ("application", ["IdentifierValue", "ControlParenLeft"], ["PrimitiveNum"], ["ControlParenRight"]),
+        ("transfer-in-range", ["MethodGet", "OperatorArrow"], ["PrimitiveNum"], []),
+        ("transfer-in-domain", ["MethodPut", "OperatorColon", "ControlParenLeft"], ["PrimitiveNum"], ["ControlParenRight", "OperatorArrow", "PrimitiveNum"]),
+        ("relation-in-range", ["PathElementSegment", "KeywordOn", "MethodGet", "OperatorArrow"], ["PrimitiveNum"], []),
+        ("sum-of-parens", ["ControlParenLeft", "PrimitiveNum", "OperatorVerticalBar"], ["PrimitiveNum"], ["ControlParenRight"]),
+        ("range-of-contents", ["ControlChevronLeft", "PrimitiveNum", "ControlChevronRight", "OperatorDoubleColon"], ["PrimitiveNum"], []),
+        ("array-of-objects", ["ControlBracketLeft", "ControlBraceLeft", "Property"], ["PrimitiveNum"], ["ControlBraceRight", "ControlBracketRight"]),
+        ("paren-unary", ["ControlParenLeft"], ["Property", "PrimitiveNum"], ["ControlParenRight", "OperatorQuestionMark"]),
+    ]
+    out = []
+    for d in depth_list:
+        for name, pre, mid, post in shapes:
+            out.append(L + pre * d + mid + post * d + ["ControlSemicolon"])
+            # and the ill-formed variant: the innermost part missing
+            out.append(L + pre * d + post * d + ["ControlSemicolon"])
+    return out
+
+
 OPENS = {"ControlParenLeft", "ControlBracketLeft", "ControlBraceLeft", "ControlChevronLeft", "Property", "KeywordRec"}
 
 
@@ -244,6 +276,8 @@ def run(tier):
     # (T) deep nests: the property's own example (8 nested parentheses) and far beyond
     oracle(chk, nests([1, 2, 4, 8]), "nests-small", uncached_max_depth=8)
     oracle(chk, nests([16, 50, 100, 200] if tier == "quick" else [16, 32, 50, 100, 150, 200]), "nests-deep", uncached_max_depth=0)
+    oracle(chk, construct_nests([1, 2, 3]), "construct-nests-small", uncached_max_depth=3)
+    oracle(chk, construct_nests([6, 12, 18] if tier == "quick" else [6, 9, 12, 15, 18, 30, 60]), "construct-nests-deep", uncached_max_depth=0)
     # (T) real programs and their token-level mutants
     texts = [t for _, t in corpus.texts()]
     kinds = [k for k in lex_kinds(texts) if k]
